@@ -198,6 +198,77 @@ def job_map_games(n, rounds):
                    REPLAY_MAP_GAMES, "ttp/game_encoding.py:map_games")
 
 
+# ------------------------------------------------------------------ bin packing objectives
+REPLAY_OBJECTIVE = '''
+import numpy as np
+from moptipyapps.binpacking2d.instance import Instance
+from moptipyapps.binpacking2d.packing import Packing
+from moptipyapps.binpacking2d.packing_space import PackingSpace
+import importlib
+mod = importlib.import_module("moptipyapps.binpacking2d.objectives." + W["module"])
+inst = Instance("i", W["W"], W["H"], W["items"])
+y = Packing(inst)
+np.copyto(y, np.array(W["rows"]), casting="unsafe")
+y.n_bins = max(r[1] for r in W["rows"])
+PackingSpace(inst).validate(y)         # the public space accepts the packing
+try:
+    print("VALUE", getattr(mod, W["objective"])(inst).evaluate(y))
+except IndexError as ex:
+    print("INDEXERROR", ex)
+'''
+
+
+def job_objective(name, reps):
+    """index obligations of an objective kernel on every feasible packing (all sizes; every item in its own bin included)"""
+    from . import c02, pack_common as P
+    from symx.core import Engine
+    from moptipyapps.binpacking2d.packing import Packing
+    cls, M = c02.load(name)
+    n = sum(reps)
+    modname = cls.__module__.split(".")[-1]
+
+    def h(eng):
+        inst = P.make_instance(eng, reps)
+        W, H = inst.W.e, inst.H.e
+        y = fresh_array("y", (n, 6), dtype=inst.dtype, masq=Packing)
+        y.instance = inst
+        X = P.rows_of(y, n)
+        k = z3.Int("k")
+        eng.assume(z3.And(core.in_dtype(y), P.feasible(X, inst, W, H, k)))
+        inst.lower_bound_bins = 1
+        obj = M["__init__"]._shell.__new__(M["__init__"]._shell) if hasattr(M["__init__"], "_shell") else cls.__new__(cls)
+        M["__init__"](obj, inst)
+        M["evaluate"](obj, y)
+        pend = [(l, c) for l, c in eng.pending if l.startswith("index in range")]
+        eng.pending = []
+        eng.n_access = core.ACCESSES
+        for l, c in pend:
+            eng.oblige(c, l, now=True)
+        return "evaluated"
+    eng = Engine(timeout_ms=60000)
+    eng.prefer = P.small_witness_prefs(len(reps))
+    ok = eng.explore(h)
+    common = dict(paths=eng.paths, queries=dict(sat=eng.n_sat, unsat=eng.n_unsat, unknown=eng.unknown), solver_s=round(eng.t_solver, 2),
+                  vacuity=dict(accesses=getattr(eng, "n_access", 0), outcomes=eng.outcomes))
+    if eng.violations:
+        v = eng.violations[0]
+        md = {d.name(): v.model[d].as_long() for d in v.model.decls() if z3.is_int_value(v.model[d])}
+        Wv, Hv, items = P.model_instance(md, reps)
+        rows = [[int(md.get(f"y_{i * 6 + c}", 0)) for c in range(6)] for i in range(n)]
+        w = dict(objective=name, module=modname, W=Wv, H=Hv, items=[list(i) for i in items], rows=rows, label=v.label, case=f"objective {name}",
+                 replay_code=REPLAY_OBJECTIVE)
+        rc, out, err = boundscheck_replay(REPLAY_OBJECTIVE, w)
+        w["observed"] = (out + err)[-500:]
+        if "INDEXERROR" in out:
+            return violated("index_in_range", f"binpacking2d/objectives/{modname}.py", f"{name}: out-of-bounds access under NUMBA_BOUNDSCHECK=1 for bin {Wv}x{Hv} items {items} rows {rows}: {out.strip()[:150]}",
+                            w, validated=1, **common)
+        return inconclusive(f"{name}: '{v.label}' fails symbolically but does not replay as IndexError (rc={rc}): {w['observed'][-300:]}", **common)
+    if not ok or not eng.outcomes.get("evaluated") or not getattr(eng, "n_access", 0):
+        return inconclusive(f"{name}: exploration not conclusive {eng.stats()}", **common)
+    return held(summary=f"objective {name} reps={reps}: {eng.paths} paths, {eng.n_access} array accesses in range",
+                sample=dict(case=f"objective {name}", reps=reps, accesses=eng.n_access), **common)
+
+
 def jobs(tier):
     js = []
     shipped = sorted({s for _, s in T.shipped_settings(4).values()})
@@ -212,12 +283,20 @@ def jobs(tier):
         js.append(Job(f"game_plan_length/n{n}/r{r}", job_plan_length, dict(n=n, rounds=r), "index_in_range", 900))
     for n, r in [(2, 2), (3, 1), (3, 2), (4, 1), (4, 2), (5, 2), (6, 2), (8, 2)] + ([(7, 3), (10, 2), (12, 3)] if tier == "thorough" else []):
         js.append(Job(f"map_games/n{n}/r{r}", job_map_games, dict(n=n, rounds=r), "index_in_range", 600))
+    from . import c02
+    for name in c02.OBJECTIVES:
+        for reps in ([1], [1, 1], [2], [1, 1, 1]) + (([2, 1], [3], [1, 1, 1, 1]) if tier == "thorough" else ()):
+            if "Skyline" in name and sum(reps) > (2 if tier == "quick" else 3):
+                continue
+            js.append(Job(f"objective/{name}/reps{'-'.join(map(str, reps))}", job_objective, dict(name=name, reps=list(reps)), "index_in_range", 900))
     return js
 
 
 def meta(tier):
     return dict(
-        bounds=dict(ttp="count_errors n in {2,4} (thorough 6), rounds 1..2, all plans -n..n incl. self-play, shipped + symbolic settings; "
+        bounds=dict(objectives="the seven bin-packing objectives on every feasible packing of <= 3 rows (skyline: 2; thorough 4/3), sizes symbolic up to 10^12, "
+                               "every item in its own bin included",
+                    ttp="count_errors n in {2,4} (thorough 6), rounds 1..2, all plans -n..n incl. self-play, shipped + symbolic settings; "
                         "game_plan_length same plan domain; map_games: one game from an arbitrary plan, every code of the blueprint range, n<=8 (thorough 12)"),
         outside=["kernels not listed in this run's jobs", "kernels reached only through scipy/numpy internals"],
         assumptions=["inputs are those the public spaces accept (plan entries -n..n; game codes of the blueprint range)",
